@@ -310,6 +310,10 @@ instances! {
     c11_k2_te_len2_4 => dir_family::<TE>(&[4], true);
 }
 instances! {
+    c11_k2_txy_len3_split_dup => dir_case::<TXY>(&[0, 1, 2]);
+    c11_k2_tx_len3_split_dup => dir_case::<TX>(&[0, 1, 0]);
+}
+instances! {
     c11_k2e_missing_tx => dir_missing::<TX>();
 }
 // length 3 (thorough): prefix of two shapes x 5
